@@ -113,6 +113,15 @@ CHECKS = {
         note="Six accepted shapes that crash later are listed in known_findings.json (D5, D6, D8, D12, D14, D15) and reported as "
              "KNOWN-FINDING; any other late failure is a violation.",
         technique="TLC enumeration of rule-violation sets + replay of the life cycle + TLC trace validation", ref="§6 C12"),
+    "C09": dict(
+        text="Call histories (depth 10; 2 models x 3 parameter sets x 2 batches x 2 seeds x jit on/off; function objects re-created) "
+             "are behaviours of spec/Api.tla generated by tlc -simulate and replayed on live function objects; TraceApi (reusing "
+             "Api's actions) requires equal denotation term => identical result digest, also for re-runs in fresh processes under "
+             "other PYTHONHASHSEEDs, and unchanged fingerprints of the model and of the params (python/numpy/jax leaves); every "
+             "result is additionally validated against the reference semantics of its own arguments (TracePipeline). MC_Api checks "
+             "the Api invariants exhaustively for small constants.",
+        note="Digests are bitwise: histories use the exact dyadic model family, where jit/no-jit and batch width cannot change bits.",
+        technique="TLC-generated API behaviours replayed into the code + TLC trace validation against Api.tla", ref="§6 C09"),
 }
 REASON_PENDING = "check under construction in this round (DESIGN.md §10); not yet claimed"
 
